@@ -1,4 +1,5 @@
 import CookModel.Analysis.Collector
+import CookModel.Gen.ReportColors
 /-
   Model of what `SourceReport::write` / `write_report` (src/error.rs:304-320, 461-550) do with the labels of a
   diagnostic before and while handing them to the external renderer (codesnake 0.2.1), as far as it is logic:
@@ -31,9 +32,10 @@ def Span.le (a b : Span) : Bool := a.start < b.start || (a.start == b.start && a
     the unspecified order of equal keys of an unstable sort cannot be seen in the list of spans. -/
 def sortLabels (labels : List Span) : List Span := labels.mergeSort Span.le
 
-/-- `ColorGenerator::COLORS` (src/error.rs:465-473), by yansi colour name -/
-def reportColors : List String :=
-  ["BrightMagenta", "BrightGreen", "BrightCyan", "BrightBlue", "BrightGreen", "BrightYellow", "BrightRed"]
+/-- `ColorGenerator::COLORS` (src/error.rs:465-473), by yansi colour name: the table scraped from the source by
+    translators/gen_report_colors.py (Gen/ReportColors.lean), not typed by hand.  `colorNext` takes the wrap-around
+    point from its length, as the code does (`COLORS.len() - 1`). -/
+def reportColors : List String := Gen.reportColorsTable
 
 /-- `ColorGenerator::next`: `COLORS[self.0]` (`none` = index out of range), then advance with wrap-around -/
 def colorNext (i : Nat) : Option String × Nat :=
